@@ -74,7 +74,7 @@ Judge(e) ==
                   [failed EXCEPT !.err = IF Fn(e) = "haystack_value_get_ref_dis" THEN st.err ELSE TRUE]>>
       [] x.kind = "zinctext" ->
            IF e.ret.r = "str" THEN <<Need(~WFv(V(st, c.h), UnitSymbols) \/ SubMinuteOffset(V(st, c.h)) \/ ZincDenotes(e.ret.s, V(st, c.h)), "C17", <<Fn(e), "text does not denote the value", StringOf(e.ret.s)>>) \o Need(unchanged, "C17", <<Fn(e), "changed a handle">>), st>>
-           ELSE <<Need(e.ret.r = "null" /\ unchanged /\ \E p \in Parts(V(st, c.h)) : p.k \in {"str", "uri", "ref", "xstr", "symbol"} , "C17", <<Fn(e), "failed on an encodable value">>), failed>>
+           ELSE <<Need(e.ret.r = "null" /\ unchanged /\ \E p \in Parts(V(st, c.h)) : p.k \in {"str", "uri", "ref", "xstr", "symbol", "dict", "grid"} , "C17", <<Fn(e), "failed on an encodable value">>), failed>>
       [] x.kind = "jsontext" ->
            IF e.ret.r = "str" THEN <<Need(~WFv(V(st, c.h), UnitSymbols) \/ SubMinuteOffset(V(st, c.h)) \/ (e.tree.j # "none" /\ HaysonDenotes(e.tree, V(st, c.h))), "C17", <<Fn(e), "JSON does not denote the value">>) \o Need(unchanged, "C17", <<Fn(e), "changed a handle">>), st>>
            ELSE <<Need(e.ret.r = "null" /\ unchanged, "C17", <<Fn(e), "failed">>), failed>>
